@@ -161,6 +161,43 @@ fn run(rng: &mut Rng, idx: u64, tier: Tier) -> CaseOut {
         }
         rng.shuffle(&mut batch);
     }
+    if extended && fopts.max_quant_depth >= 2 && rng.chance(1, 5) {
+        // two nested quantifiers over the SAME domain label with a one-variable sub-formula below them, and the same
+        // sub-formula again where the outer variable is unrestricted or restricted by another label
+        let lab = rng.pick(&["p", "d"]).to_string();
+        let other = if lab == "p" { "d" } else { "p" };
+        let lit = F::Prop(rng.pick(&net.names).clone());
+        let g = match rng.below(6) {
+            0 => un(Un::AX, var("y")),
+            1 => un(Un::EF, var("y")),
+            2 => bin(Bin::And, un(Un::Not, var("y")), un(Un::EF, var("y"))),
+            3 => un(Un::EX, var("y")),
+            4 => bin(Bin::EU, lit.clone(), var("y")),
+            _ => un(Un::AG, un(Un::Not, var("y"))),
+        };
+        let mk = |rng: &mut Rng, outer: Option<String>| -> F {
+            let body = match rng.below(3) {
+                0 => F::Hyb(Hyb::Jump, "x".to_string(), None, Box::new(g.clone())),
+                1 => bin(*rng.pick(&[Bin::And, Bin::Or]), g.clone(), var("x")),
+                _ => F::Hyb(Hyb::Jump, "x".to_string(), None, Box::new(bin(*rng.pick(&[Bin::And, Bin::Or]), g.clone(), lit.clone()))),
+            };
+            let q1 = *rng.pick(&[Hyb::Exists, Hyb::Bind, Hyb::Forall]);
+            let q2 = *rng.pick(&[Hyb::Exists, Hyb::Bind, Hyb::Forall]);
+            F::Hyb(q1, "x".to_string(), outer, Box::new(F::Hyb(q2, "y".to_string(), Some(lab.clone()), Box::new(body))))
+        };
+        let a = mk(rng, Some(lab.clone()));
+        let outer_b = if rng.coin() { None } else { Some(other.to_string()) };
+        let b = mk(rng, outer_b);
+        if rng.coin() {
+            batch.push(a);
+            batch.push(b);
+        } else {
+            batch.push(bin(*rng.pick(&[Bin::And, Bin::Or]), a, b));
+        }
+        if rng.coin() {
+            rng.shuffle(&mut batch);
+        }
+    }
     // literal repetition of a formula inside the batch
     if batch.len() >= 2 && rng.chance(1, 4) {
         let dup = rng.pick(&batch).clone();
